@@ -168,9 +168,9 @@ def run(case: dict, ctx) -> dict:
     tag = rng.getrandbits(48)
     desc = None
     if k == "hosted":
-        grain = rng.choice([1, 2, 4, 8, 8, 16, 64, 128, 256])
+        grain = rng.choice([1, 2, 4, 8, 8, 16, 64, 128, 256, 2048, 8192])  # up to 4 MiB grains
         ngte = rng.choice([512, 512, 512, 64, 128, 1024])
-        cap = _cap(rng, grain, ngte, 6000 if grain < 64 else 20000)
+        cap = _cap(rng, grain, ngte, 6000 if grain < 64 else (20000 if grain < 2048 else 6 * grain))
         if rng.random() < 0.4:
             desc = w.descriptor_text([f'RW {cap} SPARSE "x.vmdk"'], crlf=rng.random() < 0.3)
         zero_gte = rng.random() < 0.6
